@@ -52,6 +52,7 @@ type FrontSpec struct {
 	HandlerFlip   bool
 	CompleteEarly bool // grouped type declarations may be closed before lazy members are loaded (output then lacks those specs: only for byte comparison)
 	Writes        bool // files written mid-build and in scrambled order at the end
+	FailedPrint   bool // a print of another package that panics half-way precedes the writes
 	LateRefs      bool // functions referring to packages are added after a first round of writes
 }
 
@@ -104,6 +105,9 @@ func Front(rt *rapid.T, spec FrontSpec) *run.Front {
 			for i := rapid.IntRange(1, 2).Draw(rt, "nlateref"); i > 0; i-- {
 				f.LateRef = append(f.LateRef, rapid.IntRange(0, 3).Draw(rt, "rfile"), rapid.IntRange(0, 11).Draw(rt, "rpath"))
 			}
+		}
+		if spec.FailedPrint {
+			f.FailedPrint = rapid.IntRange(0, 3).Draw(rt, "failed_print") == 0
 		}
 		if rapid.Bool().Draw(rt, "reorder_writes") {
 			f.WriteOrder = []int{rapid.IntRange(0, 3).Draw(rt, "wrot"), rapid.IntRange(0, 1).Draw(rt, "wrev")}
@@ -194,6 +198,9 @@ func SimplifyFront(f *run.Front) []*run.Front {
 	}
 	if f.Rewrites > 0 {
 		add(func(c *run.Front) { c.Rewrites = 0 })
+	}
+	if f.FailedPrint {
+		add(func(c *run.Front) { c.FailedPrint = false })
 	}
 	if len(f.LateRef) > 0 {
 		add(func(c *run.Front) { c.LateRef = nil })
